@@ -26,7 +26,7 @@ LEVEL_NOTE = "Asserted only where |vertical displacement| < h(start cell), as th
 RULE = ("case = direct (bathymetry seed, Dz, w, scheme, flow) or e2e (ROMS world, Dz, w). Non-trivial: some particle was reflected at the surface or at the bottom and some particle "
         "changed cell during the step; distinct by parameters.")
 MANDATORY = ["reflected_at_surface", "reflected_at_bottom", "changed_cell_same_step", "start_at_surface_or_bottom", "vertical_advection", "vertical_diffusion",
-             "both_off_untouched", "steps_checked", "e2e_records_checked", "large_displacement_fraction", "e2e_subgrid_off_diagonal"]
+             "both_off_untouched", "steps_checked", "e2e_records_checked", "large_displacement_fraction", "e2e_subgrid_off_diagonal", "inactive_particles_reflected", "e2e_inactive_particles"]
 ASSUMPTIONS = ["|displacement| < h of the start cell (larger ones are outside the property)"]
 TIMEOUT = {"quick": 900, "thorough": 3400}
 
@@ -78,6 +78,11 @@ def _direct(case, V, sit, cnt):
     Z[50:100] = h0[50:100]
     Z[100:130] = h0[100:130] * (1 - 1e-12)
     state.append(X=X, Y=Y, Z=Z)
+    inactive = np.zeros(n, bool)
+    if case["idx"] % 2:
+        # particles an IBM has switched off (alive, not moved horizontally) are still "every particle" of the property
+        inactive = rng.random(n) < 0.35
+        state["active"] = ~inactive
     _bump(sit, "start_at_surface_or_bottom", 100)
     spy: dict[str, Any] = {}
     desc = dict(mode=["diffusion", "advection", "both", "off", "diffusion_steep"][mode], Dz=Dz, w=w, dt=dt, scheme=scheme, hmin=hmin, hmax=hmax, idx=case["idx"])
@@ -121,6 +126,7 @@ def _direct(case, V, sit, cnt):
             _bump(sit, "reflected_at_surface", int(np.sum(ok & (zz < 0))))
             _bump(sit, "reflected_at_bottom", int(np.sum(ok & (zz > hb))))
             _bump(sit, "large_displacement_fraction", int(np.sum(ok & (np.abs(disp) > 0.5 * hb))))
+            _bump(sit, "inactive_particles_reflected", int(np.sum(ok & inactive & ((zz < 0) | (zz > hb)))))
             changed = (np.round(state.X) != np.round(Xb)) | (np.round(state.Y) != np.round(Yb))
             _bump(sit, "changed_cell_same_step", int(np.sum(changed)))
             cnt["particle_steps_compared"] = cnt.get("particle_steps_compared", 0) + int(ok.sum())
@@ -165,6 +171,9 @@ def _e2e(case, wd, V, sit, cnt):
                output=dict(period=dt))
     if sub:
         _bump(sit, "e2e_subgrid_off_diagonal")
+    if case["idx"] % 2:
+        run["ibm"] = dict(module=C.REC_IBM, deactivate={"1": list(range(0, npart, 2))}, log=False)
+        _bump(sit, "e2e_inactive_particles")
     if mode in (1, 2):
         run["vertical_advection"] = True
         run["extra_forcing"] = ["w"]
